@@ -98,7 +98,7 @@ func isPointSlice(t types.Type) bool {
 func runC10(c *core.Ctx) {
 	c.Rule("C10.cow", "A4: on every path, the target of every message Set*, of every store/delete on a models.Fields/models.Tags map and of every element store into a []BatchPointMessage is owned: derived from ShallowCopy/Copy/make/literal/constructor, an owned-only parameter, or an owned-only struct field")
 	c.Rule("C10.dims", "A4: a slice obtained from a message's Dimensions()/TagNames is not filtered or appended to in place (x[:0], append(x[:i]…)): it is the grouping node's own slice, shared by every point")
-	c.Rule("C10.keep", "A1: EvalNode.eval assembles the emitted fields by the documented table: keep(list) takes each kept name from the expression scope when the scope has it and from the raw fields only otherwise (unknown name: error); bare keep() copies the raw fields first and stores the expression results over them; without keep only the non-tag results are emitted — a result named like an existing field replaces it in every form")
+	c.Rule("C10.keep", "A1: EvalNode.eval assembles the emitted fields by the documented table: keep(list) takes each kept name from the expression scope exactly when it is the result of an expression (a name of the as() list; F64) and from the raw fields otherwise (unknown name: error); bare keep() copies the raw fields first and stores the expression results over them; without keep only the non-tag results are emitted — a result named like an existing field replaces it in every form")
 	c.Rule("C10.skel", "A1: guard skeletons of stateful per-point nodes: every per-group BeginBatch resets its per-batch state on every non-error path (not only when the size hint is positive); state tracking discards a point whose predicate failed without touching the tracker; eval drops a point whose expression failed whatever the quiet flag (quiet only silences the log); derivative resets its previous point at every BeginBatch, stores the previous point iff the current one parses, emits iff both parse ∧ elapsed≠0 ∧ ¬(nonNegative ∧ diff<0)")
 
 	x := &c10Ctx{c: c, fieldOK: map[*types.Var]int{}, paramOK: map[string]int{}, funcs: map[*types.Func]*core.Func{}, callers: map[*types.Func][]c10Call{}}
@@ -152,6 +152,7 @@ func runC10(c *core.Ctx) {
 		c10Dims(c, x.pkgs)
 		c10Skel(c, root)
 		c10Keep(c, root)
+		c10ProbeRules(c, root)
 	}
 }
 
@@ -1037,9 +1038,11 @@ func c10Skel(c *core.Ctx, root *packages.Package) {
 					return "prevok", false
 				case strings.HasSuffix(k, ".NonNegativeFlag"):
 					return "nonneg", false
-				case a.Op == token.LSS && a.R == "0" && strings.Contains(a.L, "-"):
+				// F62: what nonNegative drops is a negative RESULT (difference divided by elapsed), not a negative difference:
+				// the two differ for a late point, whose elapsed time is negative
+				case a.Op == token.LSS && a.R == "0" && strings.Contains(a.L, "-") && strings.Contains(a.L, " / "):
 					return "negative", false
-				case a.Op == token.GTR && a.L == "0" && strings.Contains(a.R, "-"):
+				case a.Op == token.GTR && a.L == "0" && strings.Contains(a.R, "-") && strings.Contains(a.R, " / "):
 					return "negative", false
 				case a.Op == token.EQL && a.R == "0" && strings.Contains(a.L, ".Sub("):
 					return "noelapsed", false
@@ -1162,6 +1165,31 @@ func c10Keep(c *core.Ctx, pkg *packages.Package) {
 		c.Undecided("C10.keep", "EvalNode.eval#raw", fn.Decl.Pos(), "the local holding p.Fields() was not found")
 		return
 	}
+	// the bool local that says whether a kept name is the result of an expression: assigned in a loop over the node's AsList
+	var isResultVar types.Object
+	ast.Inspect(fn.Decl.Body, func(nd ast.Node) bool {
+		rs, ok := nd.(*ast.RangeStmt)
+		if !ok || !strings.HasSuffix(types.ExprString(rs.X), ".AsList") {
+			return true
+		}
+		ast.Inspect(rs.Body, func(k ast.Node) bool {
+			if as, ok := k.(*ast.AssignStmt); ok && len(as.Lhs) == 1 {
+				if id, ok := as.Lhs[0].(*ast.Ident); ok {
+					o := info.Uses[id]
+					if o == nil {
+						o = info.Defs[id]
+					}
+					if o != nil {
+						if b, ok := o.Type().Underlying().(*types.Basic); ok && b.Kind() == types.Bool {
+							isResultVar = o
+						}
+					}
+				}
+			}
+			return true
+		})
+		return true
+	})
 	eng := &an.Engine{Prog: c.P, ElemKeys: true,
 		TrackStore: func(lhs ast.Expr, key string) string {
 			if ix, ok := ast.Unparen(lhs).(*ast.IndexExpr); ok {
@@ -1182,6 +1210,11 @@ func c10Keep(c *core.Ctx, pkg *packages.Package) {
 				return "list", true
 			case a.Call != nil && a.Call.Name() == "Has":
 				return "inscope", false
+			case isResultVar != nil && func() bool {
+				id, ok := ast.Unparen(a.Expr).(*ast.Ident)
+				return ok && info.Uses[id] == isResultVar
+			}():
+				return "isresult", false
 			case strings.HasSuffix(k, "].1") && strings.HasPrefix(k, raw+"["):
 				return "infields", false
 			case a.Op == token.EQL && a.R == "nil" && an.CallResultOf(a.L, "Get", 1):
@@ -1210,7 +1243,17 @@ func c10Keep(c *core.Ctx, pkg *packages.Package) {
 		}
 		return "other:" + v
 	}
-	an.CheckTable(c, "C10.keep", "EvalNode.eval", paths, an.Table{Atoms: []string{"keep", "list", "inscope", "infields", "getok", "istag"},
+	// F64: whether a kept name is read from the scope is decided by its being the result of an expression (a name of the as()
+	// list), not by the scope having it: the scope also holds the tags the expressions refer to and the marker of a missing field
+	for _, p := range paths {
+		for _, l := range p.Lits {
+			if l.Name == "inscope" {
+				c.Fail("C10.keep", "EvalNode.eval#keep-source", l.Pos, "a kept name is taken from the expression scope whenever the scope has it (vars.Has): the scope also holds referenced tags and the marker of a missing referenced field — keep('hx','host') turns the tag host into a field (every later expression on \"host\" then fails), keep('x') for a missing x emits the marker instead of the error 'field does not exist'")
+				return
+			}
+		}
+	}
+	an.CheckTable(c, "C10.keep", "EvalNode.eval", paths, an.Table{Atoms: []string{"keep", "list", "isresult", "infields", "getok", "istag"},
 		Outcome: func(p *an.Path) string {
 			var w []string
 			for _, e := range p.Events {
@@ -1230,9 +1273,9 @@ func c10Keep(c *core.Ctx, pkg *packages.Package) {
 			switch {
 			case a["keep"] && a["list"]:
 				switch {
-				case a["inscope"] && a["getok"]:
+				case a["isresult"] && a["getok"]:
 					return "scope"
-				case a["inscope"]:
+				case a["isresult"]:
 					return "error"
 				case a["infields"]:
 					return "raw"
@@ -1366,4 +1409,218 @@ func (x *c10Ctx) fieldDeepBegin(fv *types.Var) bool {
 		}
 	}
 	return good && n > 0
+}
+
+// c10ProbeRules: structural necessary conditions for the defects the C10 differential probe found (F61, F63, F65-F68).
+func c10ProbeRules(c *core.Ctx, root *packages.Package) {
+	info := root.TypesInfo
+	c.Rule("C10.grow", "A9b: F61: no slice is grown by re-slicing it beyond its length with a constant bound (x = x[0:1]; x[0] = v): that relies on capacity the slice need not have (a buffer started with size hint 0, or never filled) and panics; append(x[0:0], v) is the form")
+	c.Rule("C10.evalrefs", "A3: F63: in newEvalNode the names filled into the scope before expression i (refVarList[i]) are filtered against the as() names of the earlier expressions (AsList[:i]): an earlier result stored under the name of a field is not overwritten by the raw field before a later expression reads it")
+	c.Rule("C10.flatten", "A1/A2: F65-F67: FlattenNode.flatten leaves every iteration over the points (end of body, continue) with the pooled prefix buffer reset; flattenBuffer.EndBatch emits only a non-empty field set (as every other path does); flattenBuffer.Point does not assign the run's time (addPoint owns it)")
+	c.Rule("C10.stable", "A3: F68: GroupByNode.emit orders the points of a regrouped batch with a stable sort (points of one series with equal times keep their order)")
+
+	// F61
+	nGrow := 0
+	for _, f := range core.AllFuncs(root) {
+		ast.Inspect(f.Decl.Body, func(nd ast.Node) bool {
+			as, ok := nd.(*ast.AssignStmt)
+			if !ok || len(as.Lhs) != 1 || len(as.Rhs) != 1 {
+				return true
+			}
+			sl, ok := ast.Unparen(as.Rhs[0]).(*ast.SliceExpr)
+			if !ok || sl.High == nil || types.ExprString(sl.X) != types.ExprString(as.Lhs[0]) {
+				return true
+			}
+			tv, ok := info.Types[sl.High]
+			if !ok || tv.Value == nil || tv.Value.String() == "0" {
+				return true
+			}
+			if _, isSlice := info.TypeOf(sl.X).Underlying().(*types.Slice); !isSlice {
+				return true
+			}
+			nGrow++
+			c.Fail("C10.grow", f.Name()+"#"+types.ExprString(as.Lhs[0]), as.Pos(), "%s is re-sliced to the constant length %s: when it has no capacity (combine's buffer at the start of a run after a begin with size hint 0 — every batch that went through where/eval/flatten — or at a group's first unaligned point) this panics with 'slice bounds out of range' and the task dies", types.ExprString(as.Lhs[0]), types.ExprString(sl.High))
+			return true
+		})
+	}
+	if nGrow == 0 {
+		c.Ok("C10.grow", "root#no-reslice-growth")
+	}
+
+	// F63
+	if fn := c.Need("C10.evalrefs", "", "", "newEvalNode"); fn != nil {
+		var loop *ast.RangeStmt
+		ast.Inspect(fn.Decl.Body, func(nd ast.Node) bool {
+			if rs, ok := nd.(*ast.RangeStmt); ok && loop == nil && strings.HasSuffix(types.ExprString(rs.X), ".Lambdas") {
+				loop = rs
+			}
+			return true
+		})
+		if loop == nil || loop.Key == nil {
+			c.Undecided("C10.evalrefs", "newEvalNode#loop", fn.Decl.Pos(), "loop over the lambdas not found")
+		} else {
+			idx := info.Defs[loop.Key.(*ast.Ident)]
+			filtered, direct := false, false
+			ast.Inspect(loop.Body, func(nd ast.Node) bool {
+				switch x := nd.(type) {
+				case *ast.SliceExpr:
+					if strings.HasSuffix(types.ExprString(x.X), ".AsList") && x.Low == nil && x.High != nil {
+						if id, ok := ast.Unparen(x.High).(*ast.Ident); ok && info.Uses[id] == idx {
+							filtered = true
+						}
+					}
+				case *ast.AssignStmt:
+					for i, l := range x.Lhs {
+						if ix, ok := ast.Unparen(l).(*ast.IndexExpr); ok && strings.HasSuffix(types.ExprString(ix.X), ".refVarList") && i < len(x.Rhs) {
+							if call, ok := ast.Unparen(x.Rhs[i]).(*ast.CallExpr); ok {
+								if m := core.Callee(info, call); m != nil && m.Name() == "FindReferenceVariables" {
+									direct = true
+								}
+							}
+						}
+					}
+				}
+				return true
+			})
+			c.Check(filtered && !direct, "C10.evalrefs", "newEvalNode#earlier-results", loop.Pos(), "the names filled into the scope before each expression are all its references (filtered against AsList[:i]: %v, stored directly from FindReferenceVariables: %v): when an earlier expression stored its result under the name of an existing field or tag, filling the scope for the next expression overwrites the result with the raw value, which is also what is emitted — eval(lambda: \"value\"*2.0, lambda: \"value\"+1.0).as('value','v1') on value=10 gives value=10, v1=11", filtered, direct)
+		}
+	}
+
+	// F65
+	if fn := c.Need("C10.flatten", "", "FlattenNode", "flatten"); fn != nil {
+		eng := &an.Engine{Prog: c.P,
+			TrackCall: func(call *ast.CallExpr, callee *types.Func) string {
+				if callee != nil && core.RecvTypeName(callee) == "Buffer" {
+					switch callee.Name() {
+					case "WriteString", "WriteByte", "WriteRune", "Write":
+						return "write"
+					case "Reset":
+						return "reset"
+					}
+				}
+				return ""
+			}}
+		paths, err := eng.Run(fn)
+		if err != nil {
+			c.Undecided("C10.flatten", "FlattenNode.flatten#prefix", fn.Decl.Pos(), "%v", err)
+		} else {
+			bad := ""
+			var badPos token.Pos
+			n := 0
+			// does the inner loop over the dimensions write to the buffer on any path?
+			innerWrites := false
+			for _, p := range paths {
+				d := 0
+				for _, e := range p.Events {
+					switch {
+					case e.Kind == "loop":
+						d++
+					case e.Kind == "endloop":
+						d--
+					case e.Kind == "call" && e.Name == "write" && d >= 2:
+						innerWrites = true
+					}
+				}
+			}
+			for _, p := range paths {
+				// dirty: the buffer may hold something. Inside an inner loop the body stands for any iteration, so what the
+				// inner body may write in an earlier iteration counts from the inner loop's head on.
+				dirty, depth := false, 0
+				for i, e := range p.Events {
+					switch {
+					case e.Kind == "loop":
+						depth++
+						if depth >= 2 && innerWrites && strings.Contains(e.Name, "Dimensions") {
+							dirty = true // an earlier iteration of this inner loop may have written
+						}
+					case e.Kind == "call" && e.Name == "write":
+						dirty = true
+					case e.Kind == "call" && e.Name == "reset":
+						dirty = false
+					case e.Kind == "continue" && depth == 1, e.Kind == "endloop" && depth == 1:
+						n++
+						if dirty && bad == "" {
+							bad, badPos = p.Cond(), e.Pos
+						}
+						if e.Kind == "endloop" {
+							depth--
+						}
+					case e.Kind == "endloop":
+						depth--
+						// an inner loop that ran to its end normally: its writes are real writes (already counted)
+						_ = i
+					}
+				}
+			}
+			c.Check(bad == "" && n > 0, "C10.flatten", "FlattenNode.flatten#prefix", badPos, "an iteration over the points is left with what was written to the pooled prefix buffer still in it (path [%s], iteration ends seen: %d): the fields of the next point are named with the leftover in front (AB.80.bytes for B.80.bytes), and the leftover survives across calls through the pool", bad, n)
+		}
+	}
+	// F66
+	if fn := c.Need("C10.flatten", "", "flattenBuffer", "EndBatch"); fn != nil {
+		eng := &an.Engine{Prog: c.P,
+			TrackCall: func(call *ast.CallExpr, callee *types.Func) string {
+				if callee != nil && callee.Name() == "emitBatchPoint" {
+					return "emit"
+				}
+				return ""
+			},
+			Classify: func(a an.Atom) (string, bool) {
+				isLenFields := func(k string) bool { return strings.HasPrefix(k, "len(") && strings.Contains(k, ".flatten(") }
+				switch {
+				case a.Op == token.LSS && a.L == "0" && isLenFields(a.R):
+					return "nonempty", false
+				case a.Op == token.GTR && a.R == "0" && isLenFields(a.L):
+					return "nonempty", false
+				case a.Op == token.EQL && a.R == "0" && isLenFields(a.L):
+					return "nonempty", true
+				case a.Op == token.NEQ && a.R == "0" && isLenFields(a.L):
+					return "nonempty", false
+				}
+				return "", false
+			}}
+		paths, err := eng.Run(fn)
+		if err != nil {
+			c.Undecided("C10.flatten", "flattenBuffer.EndBatch#non-empty", fn.Decl.Pos(), "%v", err)
+		} else {
+			good, n := true, 0
+			for _, p := range paths {
+				if !p.Has("emit") {
+					continue
+				}
+				n++
+				if v, ok := p.Assign()["nonempty"]; !ok || !v {
+					good = false
+				}
+			}
+			c.Check(good && n > 0, "C10.flatten", "flattenBuffer.EndBatch#non-empty", fn.Decl.Pos(), "the last run of a batch is emitted without a test that anything could be flattened (emitting paths: %d): a batch whose last point lacks the tag yields a point without fields, which every other path of the node suppresses", n)
+		}
+	}
+	// F67
+	if fn := c.Need("C10.flatten", "", "flattenBuffer", "Point"); fn != nil {
+		stores := false
+		ast.Inspect(fn.Decl.Body, func(nd ast.Node) bool {
+			if as, ok := nd.(*ast.AssignStmt); ok {
+				for _, l := range as.Lhs {
+					if an.FieldSel(info, l, "flattenBuffer", "time") {
+						stores = true
+					}
+				}
+			}
+			return true
+		})
+		c.Check(!stores, "C10.flatten", "flattenBuffer.Point#run-time", fn.Decl.Pos(), "flattenBuffer.Point assigns the time of the run itself: addPoint already moved it to the new point's time, Point moves it back to the emitted run's — for a late point the following points of the new time are stamped with the old one and never merged")
+	}
+	// F68
+	if fn := c.Need("C10.stable", "", "GroupByNode", "emit"); fn != nil {
+		kind := ""
+		ast.Inspect(fn.Decl.Body, func(nd ast.Node) bool {
+			if call, ok := nd.(*ast.CallExpr); ok {
+				if m := core.Callee(info, call); m != nil && m.Pkg() != nil && m.Pkg().Path() == "sort" {
+					kind = m.Name()
+				}
+			}
+			return true
+		})
+		c.Check(kind == "Stable" || kind == "SliceStable", "C10.stable", "GroupByNode.emit#sort", fn.Decl.Pos(), "the points of a regrouped batch are ordered with sort.%s: an unstable sort lets points with equal times change places (in batches of more than 12 points even points of one series), which every order dependent child sees", kind)
+	}
 }
